@@ -185,6 +185,7 @@ struct Scenario {
     bool emptied{false};
     bool inline_values{false};
     std::vector<std::string> pre_removed; // inserted and removed again during setup (sparse shapes: borders with one or two keys)
+    std::vector<std::string> setup_order; // if not empty: the setup inserts exactly these keys in this order, then removes those not in init_val
     std::vector<std::string> hot;
     std::vector<std::vector<Op>> threads;
     std::uint32_t max_id{0};
@@ -274,6 +275,7 @@ inline Scenario decode(Chooser& c, const Profile& pf, vf::Stats& st, bool record
                       : static_cast<unsigned>(c.weighted({2, 2, 3, 4, 4, static_cast<unsigned>(pf.thorough ? 1 : 0), 1, 4}));
     bool sparse = false;
     bool pair = false;
+    bool dense_thin = false; // ... and the border right of it holds one key
     bool dense = false;      // one border that is not the last of its layer is filled up to 15 entries
     unsigned dense_b = 0;
     unsigned n = 0;
@@ -327,6 +329,18 @@ inline Scenario decode(Chooser& c, const Profile& pf, vf::Stats& st, bool record
         // ascending inserts left borders of 8 keys (2*i+1 for i in [8b, 8b+8)); the 7 even counters strictly inside border b fill it
         dense_b = c.range(0, (n - 1) / 8 - 1);
         for (unsigned j = 1; j <= 7; ++j) { s.init_keys.push_back(ctr_key(s.prefix, 16 * dense_b + 2 * j, width)); }
+        if (c.chance(1, 3)) {
+            // ... and its right neighbour keeps only its first key: a remove of that key unlinks the neighbour and locks the border on its
+            // left, which is the new border of a split that is going on at that moment
+            dense_thin = true;
+            s.setup_order = s.init_keys; // ascending keys, then the fill keys: the shape the removes below start from
+            for (unsigned i = 8 * (dense_b + 1) + 1; i < 8 * (dense_b + 2) && i < n; ++i) {
+                const std::string k = ctr_key(s.prefix, 2 * i + 1, width);
+                auto it = std::find(s.init_keys.begin(), s.init_keys.end(), k);
+                if (it != s.init_keys.end()) { s.init_keys.erase(it); }
+            }
+            s.family += "+one_key_right_neighbour";
+        }
     } else {
         dense = false;
     }
@@ -348,7 +362,10 @@ inline Scenario decode(Chooser& c, const Profile& pf, vf::Stats& st, bool record
     if (depth > 0 && c.chance(pair ? 2 : 1, 3)) {
         unsigned sib = c.flip() ? 14 : 1 + c.range(0, 5);
         upper_full = sib == 14 && depth == 1;
-        for (unsigned i = 0; i < sib; ++i) { s.init_keys.push_back(std::string(1, static_cast<char>('A' + i))); }
+        for (unsigned i = 0; i < sib; ++i) {
+            s.init_keys.push_back(std::string(1, static_cast<char>('A' + i)));
+            if (!s.setup_order.empty()) { s.setup_order.push_back(s.init_keys.back()); }
+        }
         s.family += "+upper_siblings";
     }
     std::uint32_t id = 1;
@@ -518,7 +535,15 @@ inline Scenario decode(Chooser& c, const Profile& pf, vf::Stats& st, bool record
             return o;
         };
         // thread 0
-        if (pf.scanner_thread || (pf.w_scan + pf.w_cursor > 0 && c.chance(1, 3))) {
+        const bool split_vs_unlink = dense_thin && !pf.scanner_thread && pf.w_remove > 0 && c.flip();
+        if (split_vs_unlink) {
+            // a put that splits the full border against the remove that unlinks its one-key right neighbour (the remover locks the
+            // border left of the neighbour, which is the new border of the split)
+            K = present_at(8 * dense_b + c.range(0, 7));
+            K2 = K + "a";
+            s.threads[0].push_back(point(OpK::Put, K2));
+            s.threads[1].push_back(point(OpK::Remove, ctr_key(s.prefix, 2 * (8 * (dense_b + 1)) + 1, width)));
+        } else if (pf.scanner_thread || (pf.w_scan + pf.w_cursor > 0 && c.chance(1, 3))) {
             Op o;
             gen_range_op(o, pf.w_cursor > pf.w_scan ? true : (pf.w_cursor == 0 ? false : c.flip()));
             force_r2l = false;
@@ -546,6 +571,7 @@ inline Scenario decode(Chooser& c, const Profile& pf, vf::Stats& st, bool record
             if (c.chance(1, 3)) { s.threads[0].push_back(point(OpK::Get, c.flip() ? K : K2)); }
         }
         // thread 1
+        if (!split_vs_unlink)
         switch (dense && c.flip() ? 2U : (v2 && upper_full && c.flip() ? 13U : (v2 ? c.range(0, 12) : c.range(0, 9)))) {
             case 13: // a put into the FULL border of the upper layer (it splits and re-parents the layer below) against thread 0's
                      // operation inside that layer (a remove that collapses the layer's interior root promotes a new layer root)
@@ -745,6 +771,49 @@ inline Scenario decode(Chooser& c, const Profile& pf, vf::Stats& st, bool record
     s.max_id = id;
     if (v2 && pf.conflict_bias && c.chance(1, 3)) { s.conflict_bias = true; }
     return s;
+}
+
+// ---- lock-ownership monitor: a node lock taken by lock() belongs to that thread until its unlock(); a plain store of a version word
+// (set_body: used for nodes that are not published yet) must never hit a word that another thread holds locked
+struct LockMonitor {
+    std::unordered_map<const void*, int> owner;
+    std::unordered_map<const void*, unsigned> lockers; // threads (bit set) that took this lock with lock() in the current run
+    std::string error;
+    void reset() {
+        owner.clear();
+        lockers.clear();
+        error.clear();
+    }
+};
+inline LockMonitor* g_lock_monitor = nullptr;
+inline void lock_event_sink(int ev, const void* obj, std::uint64_t a, std::uint64_t b) {
+    LockMonitor* m = g_lock_monitor;
+    if (m == nullptr || sched::tl_self == nullptr) { return; }
+    const int me = sched::tl_self->id;
+    if (ev == yakushima::verif::EV_LOCK_ACQ) {
+        m->owner[obj] = me;
+        m->lockers[obj] |= 1U << static_cast<unsigned>(me & 31);
+    } else if (ev == yakushima::verif::EV_LOCK_REL) {
+        m->owner.erase(obj);
+    } else if (ev == yakushima::verif::EV_VERSION_STORE) {
+        auto it = m->owner.find(obj);
+        if (it != m->owner.end() && it->second != me && a != 0 && m->error.empty()) {
+            m->error = "T" + std::to_string(me) + " overwrote the version word of a node with a plain store while T" + std::to_string(it->second) +
+                       " holds its lock (taken with lock())";
+        }
+        // plain stores initialise nodes nobody else can reach yet (a fresh node, the new sibling of a split before it is linked): a
+        // word that another thread has already locked in this run is reachable, so the store races with lock() / unlock() on it
+        auto lk = m->lockers.find(obj);
+        if (lk != m->lockers.end() && (lk->second & ~(1U << static_cast<unsigned>(me & 31))) != 0 && m->error.empty()) {
+            m->error = "T" + std::to_string(me) + " wrote the version word of a node with a plain store although another thread has already taken that node's lock in this run " +
+                       "(the node was reachable before its version word was initialised)";
+        }
+        if (b != 0) {
+            m->owner[obj] = me;
+        } else {
+            m->owner.erase(obj);
+        }
+    }
 }
 
 inline std::string* g_check_created_ptr = nullptr; // C15: where to report a wrong created_value_ptr (null: not requested)
@@ -982,8 +1051,18 @@ inline vf::CaseResult run_scenario(const Profile& pf, const Scenario& sc, const 
         {
             Token tok{};
             enter(tok);
-            for (auto& k : sc.init_keys) {
-                if (do_put(tok, k, sc.init_val.at(k), false) != status::OK) { throw Fail{"harness", "setup put failed"}; }
+            if (!sc.setup_order.empty()) {
+                for (auto& k : sc.setup_order) {
+                    auto it = sc.init_val.find(k);
+                    if (do_put(tok, k, it != sc.init_val.end() ? it->second : 1, false) != status::OK) { throw Fail{"harness", "setup put failed"}; }
+                }
+                for (auto& k : sc.setup_order) {
+                    if (sc.init_val.count(k) == 0) { remove(tok, "s", k); }
+                }
+            } else {
+                for (auto& k : sc.init_keys) {
+                    if (do_put(tok, k, sc.init_val.at(k), false) != status::OK) { throw Fail{"harness", "setup put failed"}; }
+                }
             }
             if (sc.emptied) {
                 for (auto& k : sc.init_keys) { remove(tok, "s", k); }
@@ -1020,6 +1099,17 @@ inline vf::CaseResult run_scenario(const Profile& pf, const Scenario& sc, const 
             return false;
         };
         // ---- scheduled run
+        static LockMonitor lock_monitor;
+        lock_monitor.reset();
+#ifdef VF_ALLOC_TRACK
+        const bool monitor_locks = false; // the owner table would be charged to the case by the allocation oracle
+#else
+        const bool monitor_locks = vf::g_decoder >= 2 && (pf.prop == "C09" || pf.prop == "C08" || pf.prop == "C01");
+#endif
+        if (monitor_locks) {
+            g_lock_monitor = &lock_monitor;
+            vf::g_event_sink = lock_event_sink;
+        }
         std::string created_ptr_error;
         g_check_created_ptr = (pf.prop == "C15" && vf::g_decoder >= 2) ? &created_ptr_error : nullptr;
         Exec ex(sc);
@@ -1037,6 +1127,11 @@ inline vf::CaseResult run_scenario(const Profile& pf, const Scenario& sc, const 
         sched::RevBytes rb(bytes.data(), bytes.size());
         sched::Outcome oc = S.run(std::move(bodies), rb);
         if (oc == sched::Outcome::Released) {
+            g_check_created_ptr = nullptr;
+            if (monitor_locks) {
+                g_lock_monitor = nullptr;
+                vf::g_event_sink = nullptr;
+            }
             res.inconclusive = true;
             if (std::getenv("VF_DEBUG_INCONCLUSIVE") != nullptr) { std::fprintf(stderr, "INCONCLUSIVE (step budget)\n%s", sc.text().c_str()); }
             reset_library();
@@ -1049,6 +1144,11 @@ inline vf::CaseResult run_scenario(const Profile& pf, const Scenario& sc, const 
             if (!ex.errors[t].empty()) { failx("illegal_status", "T" + std::to_string(t) + ": " + ex.errors[t]); }
         }
         g_check_created_ptr = nullptr;
+        if (monitor_locks) {
+            g_lock_monitor = nullptr;
+            vf::g_event_sink = nullptr;
+            if (!lock_monitor.error.empty()) { failx("node_lock_overwritten", lock_monitor.error); }
+        }
         if (!created_ptr_error.empty()) { failx("created_ptr_wrong", created_ptr_error); }
         if (pf.judge_history) {
             for (std::size_t t = 0; t < ex.value_errors.size(); ++t) {
